@@ -118,8 +118,10 @@ pub fn for_each_grammar(slices: &[Slice], w: &mut Worker, stats: &mut Stats, mut
                 }
                 if sl.whole_grammars {
                     starts = vec!["r".to_string()];
-                    if text.contains("top = ") {
-                        starts.push("top".into());
+                    for extra in ["top", "s", "WHITESPACE", "COMMENT"] {
+                        if text.contains(&format!("{extra} = ")) {
+                            starts.push(extra.into());
+                        }
                     }
                 }
                 match prepare(&text, &format!("{}/{}", sl.name, fr.label()), inputs.clone(), starts) {
@@ -177,6 +179,26 @@ pub fn standard(quick: bool, scale: i32) -> Vec<Slice> {
         len: if quick { 3 } else { 4 },
         len4: 3,
         extra_rules: gram::MANY_RULES_EXTRA,
+    });
+    v.push(Slice {
+        whole_grammars: false,
+        extra_alpha: gram::BUILTIN_ALPHA.to_vec(),
+        name: "builtins".into(),
+        frames: gram::frames(false, false).into_iter().filter(|f| f.sdef == 0 && f.ws <= 1 && (f.ty == 0 || f.ty == 2) && (f.ws == 0 || f.ty == 0)).collect(),
+        bodies: Rc::new(gram::builtin_bodies()),
+        len: 3,
+        len4: 3,
+        extra_rules: "",
+    });
+    v.push(Slice {
+        whole_grammars: true,
+        extra_alpha: vec![' ', '#'],
+        name: "special-bodies".into(),
+        frames: gram::frames(false, false).into_iter().filter(|f| f.sdef == 0 && f.ws == 0 && f.ty == 0).collect(),
+        bodies: Rc::new(gram::special_body_grammars()),
+        len: if quick { 4 } else { 5 },
+        len4: if quick { 4 } else { 5 },
+        extra_rules: "",
     });
     v.push(Slice {
         whole_grammars: true,
